@@ -165,6 +165,17 @@ fn corrupt(cb: &mut CompactBlock, c: &Corruption, r: &mut SubRng) -> bool {
     match c {
         Corruption::Height(h) => cb.height = *h as u64,
         Corruption::PrevHash => {
+            if !cb.header.is_empty() {
+                // the block's parent is what its header commits to (bytes 4..36); the redundant field,
+                // when it is filled in, keeps naming the parent the wallet expects
+                let parent = cb.header[4..36].to_vec();
+                let i = 4 + r.below(32) as usize;
+                cb.header[i] ^= 1 << r.below(8);
+                if r.below(2) == 0 {
+                    cb.prev_hash = parent;
+                }
+                return true;
+            }
             if cb.prev_hash.is_empty() {
                 return false;
             }
@@ -196,6 +207,10 @@ fn corrupt(cb: &mut CompactBlock, c: &Corruption, r: &mut SubRng) -> bool {
                     v.push(0);
                 }
             };
+            // the redundant hash fields of a header-carrying block are not read
+            if !cb.header.is_empty() && matches!(*name, "block.hash" | "block.prev_hash.len") {
+                return false;
+            }
             match *name {
                 "block.hash" => shorten(&mut cb.hash, r),
                 "block.prev_hash.len" => shorten(&mut cb.prev_hash, r),
@@ -296,6 +311,7 @@ impl Scenario for Batch {
         ctx.shape(&format!("t{:?}", cfg.batch_threshold));
         let seed = ch.u64("chain.seed");
         let mut s = WalletSim::new(cfg, seed, ctx)?;
+        s.chain.header_mode = *ch.pick("headers", &[0u8, 0, 40, 100]);
         let n0 = 6 + ch.below("init.blocks", 40);
         {
             let mut r = ch.fork_rng("init.chain");
@@ -322,6 +338,9 @@ impl Scenario for Batch {
                 // ---- well-formed range: inline reference on a copy, batched under a drawn schedule on the wallet
                 0 => {
                     ctx.op("scan_scheduled");
+                    if blocks.iter().any(|b| !b.header.is_empty()) {
+                        ctx.probe("scanned_block_carries_header");
+                    }
                     // inline reference on a copy of the database
                     if s.cfg.wal {
                         let _ = s.conn.execute_batch("PRAGMA wal_checkpoint(TRUNCATE)");
@@ -406,6 +425,9 @@ impl Scenario for Batch {
                     if !corrupt(&mut cb, &c, &mut r) {
                         ch.close();
                         continue;
+                    }
+                    if !cb.header.is_empty() {
+                        ctx.probe("corrupted_block_carries_header");
                     }
                     // a prev_hash corruption of the first block of the range is only detectable if the wallet holds its predecessor
                     if matches!(c, Corruption::PrevHash | Corruption::Field("block.prev_hash.len")) && victim == 0 && !s.scanned.contains(&(from - 1)) {
@@ -500,7 +522,7 @@ impl Scenario for Batch {
         ]
     }
     fn expected_probes(&self) -> Vec<&'static str> {
-        vec!["threshold_flush_fired", "task_ran_after_collect_started"]
+        vec!["threshold_flush_fired", "task_ran_after_collect_started", "scanned_block_carries_header", "corrupted_block_carries_header"]
     }
     fn fault_kinds(&self) -> Vec<&'static str> {
         vec!["task_deferred", "task_reordered", "continuity_corruption", "malformed_field"]
